@@ -89,6 +89,25 @@ impl<'g> Cx<'g> {
                 self.bail(p.span(), "unsupported path pattern")
             }
             syn::Pat::TupleStruct(ts) => {
+                // `SocketAddr::V4(a)` / `SocketAddr::V6(a)`: `a` is the address itself, known to be of that variant
+                if let Ty::Opaque(o) = scrut {
+                    let segs: Vec<String> = ts.path.segments.iter().map(|x| x.ident.to_string()).collect();
+                    let n = segs.len();
+                    if o == "RustSem.SocketAddr" && n >= 2 && segs[n - 2] == "SocketAddr" && ts.elems.len() == 1 && (segs[n - 1] == "V4" || segs[n - 1] == "V6") {
+                        let v4 = segs[n - 1] == "V4";
+                        let shape = if v4 { "RustSem.SocketAddr.v4 _ _" } else { "RustSem.SocketAddr.v6 _ _ _ _" };
+                        let vt = Ty::Opaque(if v4 { "RustSem.SocketAddrV4".into() } else { "RustSem.SocketAddrV6".into() });
+                        return match &ts.elems[0] {
+                            syn::Pat::Ident(pi) if pi.subpat.is_none() => {
+                                let name = pi.ident.to_string();
+                                self.check_local_name(&name, p.span())?;
+                                Ok((format!("{}@({})", lean_ident(&name), shape), vec![(name, vt)]))
+                            }
+                            syn::Pat::Wild(_) => Ok((shape.to_string(), vec![])),
+                            o => self.bail(o.span(), "unsupported pattern inside `SocketAddr::V4(..)` / `V6(..)`"),
+                        };
+                    }
+                }
                 if ts.path.is_ident("Some") && ts.elems.len() == 1 {
                     let inner = match scrut {
                         Ty::Opt(t) => (**t).clone(),
